@@ -41,5 +41,9 @@ pub mod stream_header;
 /// QUIC variable-length integer.
 pub mod varint;
 
+/// Verification probes (only with `--cfg wtransport_verif`).
+#[cfg(wtransport_verif)]
+pub mod verif;
+
 /// Application Layer Protocol Negotiation for WebTransport connections.
 pub const WEBTRANSPORT_ALPN: &[u8; 2] = b"h3";
